@@ -28,6 +28,8 @@ PROPS = {
             "text": "Lean 4 theorems over a model of Tx.ReadFrom/toBytesHelper/Clone/Txs.ReadFrom (round trips in both formats for all well-formed transactions, canonical re-serialisation of every accepted byte string with minimal prefixes, exact consumption incl. counted lists); the model is tied to the code on every run by a differential correspondence check that also evaluates the property predicate on the implementation's own output.",
             "note": "Trusted: Lean kernel, axioms propext/Classical.choice/Quot.sound, harness+generators+comparer, driver glue; SHA-256 executable model validated on vectors only.",
         },
+        "gen_obligations": ["lib_writes_only_fresh_buffers"],
+        "witness": [("GoBT.Script.WriteReviewLib", "GoBT.Script.WriteReviewLib.offendingFor \"C01\"")],
         "generators": ["C01"],
         "thorough_seeds": 3,
         "rule": "structured transactions with script lengths/counts on varint boundaries (0,1,252,253,254,65535,65536), edge field values, nil/empty scripts; byte strings = valid serialisations, every truncation, bit flips, non-minimal varints at each prefix position, spliced extended markers, concatenated streams, counted lists, random bytes. Non-trivial = structured op with >=1 input or output, or byte-string op of >=11 bytes; distinct = distinct op line.",
@@ -42,8 +44,9 @@ PROPS = {
             "text": "Lean 4 theorems: the model of CalcInputPreimage equals the ten-item BSV replay-protected digest specification for every transaction, index and hash-type byte; exactly the three error cases are errors, in order; the digest is the double hash of the preimage (a FORKID preimage is never 32 bytes); ANYONECANPAY/NONE independence lemmas. The specification is validated on every run against the 500 node-generated BIP143 vectors shipped in the repository; the model is tied to the code by a differential check over all 128 FORKID hash types x generated shapes, which also compares the implementation's output with the specification directly and checks the transaction is unchanged.",
             "note": "Trusted: Lean kernel + standard axioms, harness/generators/comparer, driver glue. SHA-256 is a parameter of the theorems and an executable model (validated on vectors) in the driver.",
         },
+        "witness": [("GoBT.Script.WriteReviewLib", "GoBT.Script.WriteReviewLib.offendingFor \"C02\"")],
         "generators": ["C02"],
-        "gen_obligations": ["sighash_consts_match"],
+        "gen_obligations": ["lib_writes_only_fresh_buffers", "sighash_consts_match"],
         "thorough_seeds": 2,
         "rule": "transaction shapes 1..6 inputs x 0..6 outputs (every fifth shape has more inputs than outputs), script lengths on varint boundaries, edge amounts, nil previous scripts, odd-length txids; all 128 hash types with bit 0x40 on the first and last index and a sample on a random index, index = len and 2^32-1; plus the 500 shipped node vectors run through the specification. Non-trivial = a preimage was produced for a transaction with >= 2 inputs, or a node vector; distinct = distinct op line.",
         "nontrivial": _sh_nontrivial,
@@ -56,8 +59,9 @@ PROPS = {
             "text": "Lean 4 theorems: the model of CalcInputPreimageLegacy (clone, blank, truncate, re-serialise; built on the C01 clone theorem) equals the original Satoshi serialisation for every well-formed transaction, in-range index and hash-type byte; SINGLE without a matching output yields the constant 1 un-hashed; every other legacy preimage is longer than 32 bytes so the shortcut never fires falsely. The specification is validated against the 500 node-generated legacy vectors shipped in the repository; the model is tied to the code by a differential check over all 128 non-FORKID hash types x generated shapes, including the comparison of the implementation's output with the specification and an unchanged-transaction check.",
             "note": "Trusted: Lean kernel + standard axioms, harness/generators/comparer, driver glue; SHA-256 executable model validated on vectors.",
         },
+        "witness": [("GoBT.Script.WriteReviewLib", "GoBT.Script.WriteReviewLib.offendingFor \"C03\"")],
         "generators": ["C03"],
-        "gen_obligations": ["sighash_consts_match"],
+        "gen_obligations": ["lib_writes_only_fresh_buffers", "sighash_consts_match"],
         "thorough_seeds": 2,
         "rule": "as C02 with the 128 hash types without bit 0x40, inputs with/without unlocking scripts, SINGLE with index >= number of outputs, ANYONECANPAY with NONE; plus the 500 shipped legacy node vectors (code separators stripped). Non-trivial = a preimage was produced for a transaction with >= 2 inputs, or a node vector.",
         "nontrivial": _sh_nontrivial,
@@ -70,9 +74,10 @@ PROPS = {
             "note": "Trusted: Lean kernel + standard axioms, the extractor (go/packages + go/types constant evaluation), harness/generators/comparer, driver glue incl. splitting ASM on spaces. The ASM round trip is checked by correspondence + table theorems; its end-to-end theorem is not yet proved (partial for that clause).",
             "technique": "Lean 4 proof over hand-written model + regenerated opcode tables + differential correspondence check",
         },
+        "witness": [("GoBT.Script.WriteReviewLib", "GoBT.Script.WriteReviewLib.offendingFor \"C13\"")],
         "generators": ["C13"],
         "thorough_seeds": 2,
-        "gen_obligations": ["opLength_matches_table", "asm_tables_inverse", "asm_names_prefixed", "TableFacts.asm_names_first_char", "TableFacts.asm_names_nonempty"],
+        "gen_obligations": ["lib_writes_only_fresh_buffers", "opLength_matches_table", "asm_tables_inverse", "asm_names_prefixed", "TableFacts.asm_names_first_char", "TableFacts.asm_names_nonempty"],
         "rule": "item lists with lengths {1,2,3,74..77,254..257,520,521,(65535..65537)}, every one-byte item, random lists; all byte strings of length <= 2 (quick) / a 3-byte sweep (thorough) through both tokenisers and ASM; every cut position of generated well-formed scripts; raw tails of 0,1,2,3,4,5,40 bytes after a top-level OP_RETURN; OP_RETURN inside conditionals; every opcode alone and in context through ASM. Non-trivial = script/item list of >= 2 bytes.",
         "nontrivial": lambda op, impl: len(op.partition(" ")[2]) >= 4,
         "trusted_base": COMMON_TB + ["fact extractor /verif/extract (opcode tables, constants)"],
@@ -151,6 +156,8 @@ PROPS = {
             "note": "Partial: the all-amounts theorem (dec(enc n) = n for every n <= 21e14) is not yet proved in this tree - amounts are decided by the exhaustive/boundary correspondence predicate; Go's float64 arithmetic being IEEE round-to-nearest-even and strconv/encoding/json printing floats that parse back to the same double are assumptions exercised by the bit-pattern comparison only.",
             "technique": "Lean 4 proof (structural round trip) + executable IEEE-754 model + differential correspondence check",
         },
+        "gen_obligations": ["lib_writes_only_fresh_buffers"],
+        "witness": [("GoBT.Script.WriteReviewLib", "GoBT.Script.WriteReviewLib.offendingFor \"C16\"")],
         "generators": ["C16"],
         "thorough_seeds": 1,
         "rule": "amounts: 0..20000 (quick) / 0..10^6 (thorough) exhaustively, k*10^j+d for k<=30, d in -2..2 up to 21e14, 2^p+-1, supply cap and neighbours, random values <= 21e14; transactions with 0..3 inputs (nil/empty/non-empty unlocking scripts) and 0..3 outputs with arbitrary script bytes, in library JSON, node JSON and node JSON lists; outputs and UTXOs in both dialects. Non-trivial = amount >= 1 or a transaction with an input or output.",
@@ -163,8 +170,9 @@ PROPS = {
             "text": "Lean 4 theorems: ValidateAddress (25-byte accumulate-and-carry decoder, version, checksum, canonical re-encoding) accepts a string only if it is the Base58Check encoding of version 0x00/0x6f and a 20-byte hash with a correct checksum; the canonical P2PKH script of a 20-byte hash is 25 bytes, is recognised by IsP2PKH and yields the hash back; a machine-checked witness that the script-building path (NewAddressFromString -> NewP2PKHFromAddress / PayToAddress / ChangeToAddress) accepts a wrong checksum (known finding F-C15-01, not repairable without editing the repository's tests). Tied to the code by a differential check: keys x networks through every constructor (agreement, recovery, validation), and for valid addresses every single-character substitution, adjacent transposition, insertion and deletion, leading-1 variants, non-alphabet characters, wrong versions/lengths/checksums, over-long strings congruent to a valid payload modulo 2^200; the predicate compares acceptance by each entry point with an independent Base58Check recogniser.",
             "note": "Partial: base58 Decode(Encode x) = x and the address round trip are exercised by correspondence, not yet proved (base58 bignum arithmetic of go-bk is modelled). SHA-256/RIPEMD-160 are parameters of the theorems and executable validated models in the driver. The clause 'accepted only with a correct checksum' is FALSE for the script-building entry points (known finding).",
         },
+        "witness": [("GoBT.Script.WriteReviewLib", "GoBT.Script.WriteReviewLib.offendingFor \"C15\"")],
         "generators": ["C15"],
-        "gen_obligations": ["version_bytes_match"],
+        "gen_obligations": ["lib_writes_only_fresh_buffers", "version_bytes_match"],
         "thorough_seeds": 1,
         "rule": "random 33-byte keys x both networks through all constructors; for 5 (quick) / 120 (thorough) valid addresses: all 34x57 substitutions (quick: 1 in 4), 33 transpositions, 35x58 insertions (quick: 1 in 6), 34 deletions, extra/missing leading 1, non-alphabet and non-ASCII characters, 6 wrong versions, 4 wrong payload lengths, wrong checksum, 8 wrap-around strings (payload + k*2^200); random base58 strings. Non-trivial = string of >= 20 characters or a key op.",
         "nontrivial": lambda op, impl: len(op) >= 48,
@@ -217,6 +225,8 @@ PROPS = {
             "note": "Signing itself (RFC6979 ECDSA) is not modelled: signatures are taken from the implementation and verified by the model. Trusted: Lean kernel + standard axioms, harness/generators/comparer, driver glue, executable crypto modules.",
             "technique": "Lean 4 proof over hand-written flow model (layout, digest invariance, FIFO routing, fee) + executable interpreter/ECDSA model + differential correspondence check with property predicate",
         },
+        "gen_obligations": ["lib_writes_only_fresh_buffers"],
+        "witness": [("GoBT.Script.WriteReviewLib", "GoBT.Script.WriteReviewLib.offendingFor \"C20\"")],
         "generators": ["C20"],
         "thorough_seeds": 1,
         "rule": "150/4000 flows (4 kinds; ~25% ending in each documented error class), 200/6000 inscriptions at push-length boundaries, 50/1500 InscribeSpecificOrdinal cases. Non-trivial = completed flow or parsed inscription.",
@@ -297,6 +307,14 @@ PROPS = {
         "assumptions": [],
     },
 }
+
+# the library-wide write-site obligation (Gen/WritesLib.lean + Script/WriteReviewLib.lean), reported per function group
+for _p in ("C01", "C02", "C03", "C13", "C15", "C16", "C20"):
+    PROPS[_p]["manifest"]["text"] += (" Regenerated go/ssa write-site table of packages bt and bscript, with the obligation that the functions of this"
+                                     " property write only into buffers they allocated (or as their documented contract says) and hand shared byte slices"
+                                     " only to reviewed read-only functions; the harness hands every script over in front of guard bytes and checks them after each operation.")
+    if "fact extractor" not in " ".join(PROPS[_p]["trusted_base"]):
+        PROPS[_p]["trusted_base"] = PROPS[_p]["trusted_base"] + ["fact extractor /verif/extract (go/ssa write-site table)"]
 
 NOT_APPLICABLE = {}
 HOOK_COMMITS = []
